@@ -35,11 +35,11 @@ PROFILES = {
     'c06': dict(kinds=dict(handler=4, proc=6, buffer=2, batcher=0, gates=1, path=1),
                 fault_kinds=('fail', 'shutdown', 'restore', 'wo', 'offset', 'ct', 'block', 'wake', 'fail', 'shutdown', 'restore', 'wo'),
                 n_ops=(0, 5, 10, 20, 40), p_maintainer=0.7, fail_down_bias=0.3),
-    'c08': dict(kinds=dict(handler=3, proc=3, buffer=2, batcher=0.5, gates=3, path=5),
-                fault_kinds=('fail', 'shutdown', 'restore', 'wo', 'addres', 'block', 'adjust', 'wake'),
+    'c08': dict(kinds=dict(handler=3, proc=3, buffer=2, batcher=0.5, gates=3, path=5), p_front=0.08,
+                fault_kinds=('fail', 'shutdown', 'restore', 'wo', 'addres', 'block', 'adjust', 'wake', 'rewire'),
                 p_nested=0.4, width=(2, 2, 3)),
     'c08f': dict(kinds=dict(handler=4, proc=6, buffer=1, batcher=0, gates=0, path=0), width=(2, 3, 3), n_layers=(1, 1, 2),
-                 p_fanin=1.0, p_resources=0.7, n_sources=(1, 1, 2), p_batch_source=0.0,
+                 p_fanin=1.0, p_front=0.3, p_resources=0.7, n_sources=(1, 1, 2), p_batch_source=0.0,
                  fault_kinds=('fail', 'shutdown', 'restore', 'wo', 'addres', 'block', 'block', 'block', 'wake'),
                  n_ops=(5, 10, 20, 40), sink_ct=(0, 0.5, 1, 2, 3)),
     'cp': dict(n_sources=(1,), n_layers=(1, 1, 2), width=(1, 1, 2), kinds=dict(handler=1, proc=6, buffer=1, batcher=0, gates=0, path=0.5),
@@ -222,7 +222,7 @@ def _gen_spec(rng, profile_name, P):
     layer = []
     for s in range(rng.choice(P['n_sources'])):
         ct = rng.choice(CT)
-        parts = rng.choice((None, None, 3, 6, 12, 25))
+        parts = rng.choice((None, None, None, None, 3, 3, 6, 6, 12, 12, 25, 25, 0))
         if ct == 0 and parts is None:
             parts = rng.choice((3, 6, 12))
         gen = {'mode': 'single', 'value': rng.choice(VALUES), 'quality': rng.choice((1, 0.5))}
@@ -254,6 +254,11 @@ def _gen_spec(rng, profile_name, P):
             up = _subset(rng, all_layers[-1], P['p_fanin'])
             if L >= 2 and rng.random() < 0.15:
                 up = sorted(set(up + [rng.choice(all_layers[-2])]))
+            if kind in ('handler', 'proc') and P.get('p_front') and rng.random() < P['p_front']:
+                # a pass-through controller (gate that accepts everything, or a plain PartFlowController) in front of
+                # the device: the device is still one of several parallel candidates of its upstreams
+                add({'k': 'gate', 'n': f'{name}f', 'up': list(up), 'pred': ['all'], 'plain': rng.random() < 0.5})
+                up = [f'{name}f']
             if kind == 'handler':
                 new_layer.append(add(mk_handler(name, up)))
             elif kind == 'proc':
@@ -481,7 +486,7 @@ def gen_ops(rng, spec, P, horizon):
             if not ups:
                 continue
             op['dev'] = d['n']
-            op['up'] = rng.sample(ups, rng.randint(0 if rng.random() < 0.1 else 1, min(3, len(ups))))
+            op['up'] = rng.sample(ups, 0 if rng.random() < 0.2 else rng.randint(1, min(3, len(ups))))
         elif k == 'offset':
             op['dev'] = rng.choice(timed)
             op['v'] = rng.choice((-2, -1, -0.5, -0.25, 0.25, 0.5, 1, 2))
